@@ -118,6 +118,9 @@ def run_slots_impl(ops):
                     t.cancel()
                     await settle()
                     out.append("BLOCKED " + state())      # the reader must never wait for the semaphore
+                elif t.exception() is not None:
+                    out.append(f"ERROR {type(t.exception()).__name__}: {t.exception()} " + state())
+                    return
                 else:
                     out.append(state())
             elif op == "o":
@@ -139,7 +142,12 @@ def run_slots_impl(ops):
                     continue
                 sid = held.pop(0)
                 conn._state = httpcore._async.http2.HTTPConnectionState.ACTIVE
-                await conn._response_closed(sid)
+                try:
+                    await conn._response_closed(sid)
+                except Exception as e:  # noqa  (e.g. the semaphore released more often than acquired)
+                    applied.append(op)
+                    out.append(f"ERROR {type(e).__name__}: {e} " + state())
+                    return
                 await settle()
                 applied.append(op)
                 out.append(state())
